@@ -16,6 +16,9 @@ def instantiate(e, st, k, n):
         st['op'] = op
     if op == 'shannon' and st.get('bits') == 'sym':
         st['bits'] = tt_bits('s%d' % k, n)
+    if op == 'shannon' and st.get('bits') == 'split':
+        from .adflib import split_table
+        st['bits'] = split_table('s%d' % k, n)
     for key in ('a', 'b'):
         if st.get(key) == 'choose': st[key] = Choice(key)
     if op in ('not', 'restrict'): st.pop('b', None)
@@ -75,6 +78,8 @@ def make_jobs(Job, tier, seed, prop):
             if op != 'restrict':
                 J('n3-%s-seed%d-x-sym' % (op, s), [{'op': 'shannon', 'bits': cb}, S, {'op': op, 'a': 0, 'b': 1}], 3)
     J('n3-not', [S, {'op': 'not', 'a': 0}], 3)
+    # four variables, branches over interleaved variable sets (supports that are not intervals): every cofactor, then a connective with it
+    J('n4-split-restrict', [{'op': 'shannon', 'bits': 'split'}, {'op': 'restrict', 'a': 0}, {'op': ['and', 'xor'], 'a': 0, 'b': 1}], 4)
     # (c) histories on one store: warm memo tables, operands chosen among all issued handles
     if tier == 'quick':
         # every operation followed by a negation of a chosen handle (cheap: unary second step), plus seeded and fixed pairs
